@@ -347,4 +347,170 @@ def Entry.isSched : Entry → Bool
   | .schedStep _ => true
   | _ => false
 
+/-! ### The `stop_training` setter; an exception raised by a callback inside `fit` -/
+
+/-- A value a caller / callback may assign to `nn_state.stop_training`, by kind: a Python `bool`, a `numpy.bool_`
+(e.g. the result of a numpy comparison `loss < tol`), a Python `int`, a 0-d boolean tensor / ndarray, `None`, a `str`. -/
+inductive PyVal where
+  | pyBool (b : Bool)
+  | npBool (b : Bool)
+  | int (n : Int)
+  | tensor0 (b : Bool)
+  | none
+  | str (s : String)
+  deriving DecidableEq, Repr, Inhabited
+
+/-- `isinstance(v, bool)`: only the two Python singletons (`numpy.bool_` is not a subclass of `bool`; `bool` is a
+subclass of `int`, not the other way round). -/
+def PyVal.isBool : PyVal → Bool
+  | .pyBool _ => true
+  | _ => false
+
+/-- Python truthiness `bool(v)` of the value (what `if self.stop_training` would read had it been stored). -/
+def PyVal.truthy : PyVal → Bool
+  | .pyBool b => b
+  | .npBool b => b
+  | .int n => n != 0
+  | .tensor0 b => b
+  | .none => false
+  | .str s => s != ""
+
+/-- The `stop_training` setter (nn_states/neural_state.py:46-50): `if isinstance(new_val, bool): self._stop_training = new_val`
+`else: raise ValueError(...)`. The value stored, or the exception; nothing is stored when it raises. -/
+def setStop (v : PyVal) : Except PyErr Bool :=
+  match v with
+  | .pyBool b => .ok b
+  | _ => .error .ValueError
+
+/-- The statement `nn_state.stop_training = v`: the exception it raises (if any) and the state after it. -/
+def assignStop (v : PyVal) (s : S) : Option PyErr × S :=
+  match setStop v with
+  | .ok b => (none, { s with stop := b })
+  | .error e => (some e, s)
+
+/-- What the user callbacks do to the flag, as code: callback `i`, while handling `ev`, executes
+`nn_state.stop_training = v` (`some (v, catches)`; `catches` = the statement sits in a `try/except` of the callback, so an
+exception raised by the setter does not leave the handler) or leaves the flag alone (`none`). Only assignments that
+can SET the flag are meant here: `v = False` is faithful only while the flag is clear (a no-op then); clearing a request
+in the middle of a run is not modelled (between calls it is: `Run.pre`). -/
+abbrev Asg := Nat → Event → Option (PyVal × Bool)
+
+/-- the stop requests the assignments amount to: exactly the ACCEPTED assignments of a true value -/
+def Asg.req (A : Asg) (mid : Int → Nat → Bool) : Req :=
+  { cb := fun i ev => match A i ev with
+      | some (v, _) => (match setStop v with | .ok b => b | .error _ => false)
+      | none => false,
+    mid := mid }
+
+/-- does the handler of callback `i` for `ev` end with an exception? (a refused assignment that is not caught) -/
+def Asg.raises (A : Asg) (i : Nat) (ev : Event) : Option PyErr :=
+  match A i ev with
+  | some (v, catches) => (match setStop v with | .ok _ => none | .error e => if catches then none else some e)
+  | none => none
+
+/-- The log of a run up to and including the first handler invocation that ends with an exception (with that
+exception), or `none` when no handler raises. Neither `CallbackList.on_*` (callback_list.py:60-82) nor `fit`
+(neural_state.py:558-636) has a `try`: the exception leaves the handler, the dispatch loop (the later callbacks and the
+`Timer` do not see the event) and `fit` — nothing later in program order happens. -/
+def cutAtRaise (X : Nat → Event → Option PyErr) : List Entry → Option (List Entry × PyErr)
+  | [] => none
+  | .call i ev seen ver :: l =>
+    match X i ev with
+    | some e => some ([.call i ev seen ver], e)
+    | none => (cutAtRaise X l).map (fun p => (.call i ev seen ver :: p.1, p.2))
+  | x :: l => (cutAtRaise X l).map (fun p => (x :: p.1, p.2))
+
+/-- what is left behind when an exception escapes `fit`: the log so far, the exception, and — read off the raising
+invocation — `self._stop_training` (what the handler saw on entry, or-ed with a request it made itself before
+raising) and the parameter version -/
+structure Abort where
+  log : List Entry
+  err : PyErr
+  stop : Bool
+  ver : Nat
+  deriving DecidableEq, Repr, Inhabited
+
+/-- state left by the last entry of an abort log (always the raising `call`) -/
+def abortState (R : Req) (stop₀ : Bool) (pre : List Entry) : Bool × Nat :=
+  match pre.getLast? with
+  | some (.call i ev seen ver) => (seen || R.cb i ev, ver)
+  | _ => (stop₀, 0)
+
+/-- `fit` with callbacks that assign to `stop_training` (and may raise doing so): the completed run (`.ok`), or
+what is left when the first uncaught exception escapes (`.error`). -/
+def fitAsg (c : Cfg) (A : Asg) (mid : Int → Nat → Bool) (stop₀ : Bool) : Except Abort (List Entry × S) :=
+  let R := A.req mid
+  let full := fit c R stop₀
+  match cutAtRaise A.raises full.1 with
+  | none => .ok full
+  | some (pre, e) =>
+    let st := abortState R stop₀ pre
+    .error { log := pre, err := e, stop := st.1, ver := st.2 }
+
+/-! ### `CallbackList` as a mutable sequence (callbacks/callback_list.py:22-55) -/
+
+/-- an object offered to a `CallbackList`: a callback (`isinstance(value, CallbackBase)`, identity `i`) or anything else -/
+inductive CbItem where
+  | cb (i : Nat)
+  | other
+  deriving DecidableEq, Repr, Inhabited
+
+/-- Python index normalisation for `l[k]`, `l[k] = v`, `del l[k]` on a list of length `n`: negative indices count from
+the end; `none` = `IndexError`. -/
+def pyIdx (n : Nat) (k : Int) : Option Nat :=
+  let j : Int := if k < 0 then k + (n : Int) else k
+  if j < 0 then none else if j.toNat < n then some j.toNat else none
+
+/-- index clamping of `list.insert(k, v)`: negative indices count from the end, then clamp into `0 … n` -/
+def insIdx (n : Nat) (k : Int) : Nat :=
+  let j : Int := if k < 0 then k + (n : Int) else k
+  if j < 0 then 0 else min j.toNat n
+
+/-- one operation of the container API on a `CallbackList` holding the callbacks `l` -/
+inductive CbOp where
+  /-- `cl[k] = v` (`__setitem__`, callback_list.py:32-38) -/
+  | setItem (k : Int) (v : CbItem)
+  /-- `del cl[k]` (`__delitem__`, :40-41) -/
+  | delItem (k : Int)
+  /-- `cl.insert(k, v)` (:49-55) -/
+  | insert (k : Int) (v : CbItem)
+  /-- `cl.append(v)` (`MutableSequence.append` = `self.insert(len(self), v)`) -/
+  | append (v : CbItem)
+  /-- `cl = cl + CallbackList(other)` (`__add__`, :46-47: a NEW list `self.callbacks + other.callbacks`) -/
+  | add (other : List Nat)
+  /-- `cl = CallbackList(other) + cl` -/
+  | radd (other : List Nat)
+  deriving DecidableEq, Repr, Inhabited
+
+/-- `cl.insert(k, v)` (callback_list.py:49-55): the `isinstance` guard, then `list.insert` -/
+def cbInsert (l : List Nat) (k : Int) : CbItem → Except PyErr (List Nat)
+  | .cb i => .ok (l.insertIdx (insIdx l.length k) i)
+  | .other => .error .TypeError
+
+/-- the container operation applied to the callbacks `l`: the new contents, or the exception (contents untouched).
+`__setitem__` tests `isinstance` BEFORE indexing (TypeError wins over IndexError). -/
+def CbOp.apply (l : List Nat) : CbOp → Except PyErr (List Nat)
+  | .setItem k (.cb i) => (match pyIdx l.length k with | some j => .ok (l.set j i) | none => .error .IndexError)
+  | .setItem _ .other => .error .TypeError
+  | .delItem k => (match pyIdx l.length k with | some j => .ok (l.eraseIdx j) | none => .error .IndexError)
+  | .insert k v => cbInsert l k v
+  | .append v => cbInsert l (l.length : Int) v
+  | .add o => .ok (l ++ o)
+  | .radd o => .ok (o ++ l)
+
+/-- `cl[k]` (`__getitem__`, :29-30), `len(cl)` (:26-27) and `list(cl)` (`__iter__`, :43-44) read the same list -/
+def cbGetItem (l : List Nat) (k : Int) : Except PyErr Nat :=
+  match pyIdx l.length k with
+  | some j => (match l[j]? with | some x => .ok x | none => .error .IndexError)
+  | none => .error .IndexError
+
+/-- a caller's sequence of container operations, each in a `try/except`: a refused operation leaves the contents as
+they were; returns the final contents and, per operation, the exception it raised -/
+def cbRunOps : List Nat → List CbOp → List Nat × List (Option PyErr)
+  | l, [] => (l, [])
+  | l, op :: ops =>
+    match op.apply l with
+    | .ok l' => let r := cbRunOps l' ops; (r.1, none :: r.2)
+    | .error e => let r := cbRunOps l ops; (r.1, some e :: r.2)
+
 end QV.Train
